@@ -483,6 +483,26 @@ fn seeds() -> Vec<(&'static str, Vec<Top>)> {
             start_fn(vec![Stmt::Expr(callv("both", vec![var("inc")]))]),
         ],
     ));
+    // operators on composite values: the checker types them, the runtime must implement them for every component type
+    v.push((
+        "seed:composite-arithmetic",
+        vec![
+            keep(),
+            start_fn(vec![
+                def("ts", bin(BinOp::Add, Expr::Tuple(vec![s("ab"), int(1)]), Expr::Tuple(vec![s("cd"), int(2)]))),
+                print_of(var("ts")),
+                op_assign("ts", BinOp::Add, Expr::Tuple(vec![s("!"), int(3)])),
+                def("tf", bin(BinOp::Mul, Expr::Tuple(vec![Expr::Float(1.5), int(2)]), Expr::Tuple(vec![Expr::Float(2.0), int(3)]))),
+                def("tn", un(UnOp::Neg, Expr::Tuple(vec![int(1), Expr::Float(2.0)]))),
+                def("td", bin(BinOp::Div, Expr::Tuple(vec![Expr::Float(1.0), Expr::Float(4.0)]), Expr::Float(2.0))),
+                def("nested", bin(BinOp::Add, Expr::Tuple(vec![Expr::Tuple(vec![int(1), s("a")]), int(1)]), Expr::Tuple(vec![Expr::Tuple(vec![int(2), s("b")]), int(2)]))),
+                print_of(bin(BinOp::Eq, Expr::Tuple(vec![int(1), s("a")]), Expr::Tuple(vec![int(1), s("a")]))),
+                print_of(bin(BinOp::Lt, Expr::Tuple(vec![int(1), s("a")]), Expr::Tuple(vec![int(1), s("b")]))),
+                print_of(bin(BinOp::Add, s("x"), s("y"))),
+                print_of(Expr::Tuple(vec![var("tf"), var("tn"), var("td"), var("nested")])),
+            ]),
+        ],
+    ));
     // value of an if/case used afterwards
     v.push((
         "seed:branch-values",
